@@ -22,5 +22,8 @@ claim("C13", "SSA graph-cut must-pass-through of every acceptance rule for Retry
 claim("C16", "SSA graph-cut + effect pairing (removal ⇔ RETIRE_CONNECTION_ID / reset-token add-remove) + who-may-write/call + collection-coverage agreement over the connection-ID manager, generator and routing map",
       "Every-path structural checks: issuing bounded by min(peer limit, cap) or one-for-one, Retire's guards, each removal of a peer ID paired with RETIRE_CONNECTION_ID carrying that entry's sequence number, reset tokens added/removed with ID state changes, close path releases routing exactly once and closes the ID manager, stand-ins scheduled for deletion, storage limit error. Routed-set equality over histories is not decided.",
       "DESIGN.md §3 C16")
-for pid in ["C01","C02","C03","C05","C08","C09","C10","C11","C12","C17","C18","C19"]:
+claim("C05", "constants and labels evaluated from the type-checked program against RFC 9001/9369 reference tables with version-selection cuts; SSA graph-cut on AEAD-open success edges, error-mapping, header-protection sample geometry and key-update gating",
+      "Decides: salts, HKDF labels (key/iv/hp/ku/client in/server in/tls13), Retry keys and nonces equal the RFCs and the v2 set is selected exactly on Version2; plaintext leaves the unpackers only past Open()==nil with the header as AD; AEAD failures map to ErrDecryptionFailed; sample offset pn_offset+4..+16 agrees between packer and unpackers; rollKeys gated as RFC 9001 §6 requires; packet numbers only increase and pops are compared with peeks. Seal/open equality and packet-number decoding arithmetic are not decided.",
+      "DESIGN.md §3 C05")
+for pid in ["C01","C02","C03","C08","C09","C10","C11","C12","C17","C18","C19"]:
     na(pid, "rules for this property are designed (DESIGN.md §3) but not yet implemented in the checker; not claimed until they are")
